@@ -245,10 +245,10 @@ SDtypes == {"bool", "int8", "uint8", "float32", "float64"}
 SPoolA(dt) == CASE dt = "bool" -> <<1, 0, 1, 1>> [] dt = "int8" -> <<120, 0 - 128, 2, 1>> [] dt = "uint8" -> <<250, 2, 0, 1>> [] OTHER -> <<120, 2, 0, 1>>
 SPoolP(dt) == IF dt = "bool" THEN <<1, 1, 1, 1>> ELSE <<8, 2, 1, 4>>          \* divisors / exponents
 SScalars == {<<1, 1, 0>>, <<2, 1, 1>>, <<9, 1, 1>>, <<1, 2, 2>>, <<2, 1, 2>>}     \* <<num, den, kind>>: True, 2, 9, 0.5, 2.0
-ScalarCases ==
+ScalarCases(dts) ==
   {CD("sbin", op, <<[shape |-> sh, data |-> IF pos = 1 /\ op \in {"divide", "pow"} THEN SPoolP(dt) ELSE SPoolA(dt)]>>,
       0, <<sc[1], sc[2]>>, <<sc[3], pos>>, dt)
-   : <<op, dt, sc, pos, sh>> \in {x \in {"add", "subtract", "multiply", "divide", "pow"} \X SDtypes \X SScalars \X {0, 1} \X {<<4>>, <<2, 2>>} :
+   : <<op, dt, sc, pos, sh>> \in {x \in {"add", "subtract", "multiply", "divide", "pow"} \X dts \X SScalars \X {0, 1} \X {<<4>>, <<2, 2>>} :
         /\ ~(x[2] = "bool" /\ x[3][3] = 0)
         /\ (x[1] \in {"divide", "pow"} => x[3][1] # 9)
         /\ (x[1] = "pow" => x[3][2] = 1 /\ x[2] # "bool")}}
@@ -291,7 +291,7 @@ Cases(maxArgs) ==
   \cup NegAxisCases(maxArgs)
   \cup MixedRankCases(3)
   \cup OddIndexCases(Shapes)
-  \cup (IF maxArgs > 0 THEN ScalarCases ELSE {})
+  \cup ScalarCases(SDtypes)
 
 \* TLC evaluates every constant definition of a module when it starts, so each pass is guarded by IOEnv.PASS
 Generate == IOEnv.PASS = "generate" => (LET cs == SetToSeq(Cases(MaxArgs)) IN JsonSerialize(IOEnv.CASES_FILE, [i \in 1..Len(cs) |-> cs[i]]))
